@@ -4,12 +4,12 @@ from concurrent.futures import ThreadPoolExecutor
 from .. import core
 
 ID = "C13"
-MODULE = "DrandProofs.C13"
+MODULE = "DrandProofs.C13Reconcile"   # imports DrandProofs.C13 (model ties, chain store, dkg.db, as-is start-up)
 THEOREMS = ["Drand.Persist." + t for t in [
     "tie_executeAndFinishDKG", "tie_onDKGCompleted", "tie_transitionToNext", "tie_joinNetwork", "tie_leaveNetwork",
     "tie_storeDKGOutput", "tie_saveGroup", "tie_saveShare", "tie_reset", "tie_keySaveVariant", "tie_keySave", "tie_createSecureFile",
     "tie_dkgSaveFinished", "tie_dkgSaveCurrent", "tie_chainPut", "tie_callbackStorePut", "tie_bpLoad",
-    "tie_loadBeaconFromStore", "tie_newHandler", "tie_boltOpen",
+    "tie_loadBeaconFromStore", "tie_startupVariant", "tie_reconcileKeyFiles", "tie_newHandler", "tie_boltOpen",
     "crashImages_after", "crashImages_during",
     "c13_chain_prefix", "c13_chain_gapfree", "c13_served_stored", "c13_dkgdb_whole", "c13_staged_keeps_finished",
     "c13_save_atomic", "c13_no_torn_file", "c13_no_startup_panic_atomic", "c13_no_truncated_accepted_atomic",
@@ -18,7 +18,13 @@ THEOREMS = ["Drand.Persist." + t for t in [
     "c13_window_counterexample_db_ahead", "c13_window_counterexample_first_dkg", "c13_window_counterexample_torn_group",
     "c13_window_counterexample_group_ahead_of_share", "c13_window_counterexample_torn_share",
     "c13_eviction_exact", "c13_eviction_partial", "c13_window_counterexample_leave",
-    "c13_files_one_epoch_fixed", "c13_resumes", "c13_completion_resumes", "c13_staged_and_beacons_preserve"]]
+    "c13_resumes", "c13_completion_resumes", "c13_staged_and_beacons_preserve",
+    # the reconciling start-up (DrandProofs/C13Reconcile.lean)
+    "reconcileOps_cases", "c13_sane_of_consistent", "c13_sane_completion", "c13_sane_eviction", "c13_sane_staged_beacons",
+    "c13_reconcile_keeps_db", "c13_sane_reconcile_crash", "c13_reconcile_consistent", "c13_reconciled_keeps_db", "c13_sane_reconciled",
+    "c13_reconcile_idempotent", "c13_reconcile_noop_when_consistent", "c13_reconcile_no_record", "c13_reconcile_never_downgrades",
+    "c13_sane_restarts", "c13_files_one_epoch_fixed", "c13_windows_closed_by_reconcile", "c13_full_code",
+    "c13_reconcile_member_repairs", "c13_files_one_epoch_fixed_partial_inplace", "c13_reconcile_inplace_counterexample"]]
 TRUSTED = ["Lean 4 kernel; axioms per theorem under coverage.axioms",
            "go2lean persistence-order extractor (tools/go2lean/persist.go): call orders of executeAndFinishDKG, onDKGCompleted, "
            "transitionToNext, joinNetwork, leaveNetwork, storeDKGOutput, fileStore.SaveGroup/SaveShare/Reset, key.Save/Delete, "
@@ -32,6 +38,14 @@ TRUSTED = ["Lean 4 kernel; axioms per theorem under coverage.axioms",
            "bbolt meta page of a copy (bbolt's two-meta-page design)",
            "variant of the file-write primitive key.Save (inPlace | atomicRename): the regenerated fact Gen.keySaveVariant (go2lean "
            "refuses any third shape); the Lean driver follows it, the observed step trace of the real code must agree with it",
+           "variant of the start-up path DrandDaemon.LoadBeaconFromStore (asIs | reconcile): the regenerated fact Gen.startupVariant (go2lean "
+           "accepts exactly the two call lists, and for the reconciling one exactly one shape of reconcileKeyFiles — reads, four early "
+           "returns before any write, Reset for a node outside the recorded group, else SaveGroup, SaveShare; in-sync test = equality of "
+           "the distributed public polynomial — and of dkg.Process.LastCompleted); the Lean driver follows it; the real start-up's own "
+           "writes into the groups folder are observed (inotify) and must agree with it; a start-up that writes is itself killed at each "
+           "of its steps and restarted (second level; third level in the every-offset mode)",
+           "transition times grow with the epochs (the never-downgrade guard of reconcileKeyFiles compares TransitionTime; the model "
+           "compares epochs)",
            "trusted, not verified: bbolt (a transaction is atomic and durable once Update returned: files are opened with default "
            "options, fsync on commit), the file system (create/truncate, rename, unlink and chmod are atomic; an interrupted write "
            "leaves a prefix), BurntSushi/toml",
@@ -63,6 +77,18 @@ INPLACE_ONLY = {
     "dkg-completion:crash-during-SaveShare:share-unreadable:refused",
     "dkg-completion:crash-during-SaveShare:truncated-share-accepted:started",
 }
+# The six ordering windows (three separately atomic steps SaveFinished / SaveGroup / SaveShare, resp. SaveFinished / Reset, with
+# nothing at start-up that reconciles the key files with dkg.db). On a tree whose start-up path reconciles (regenerated fact
+# Gen.startupVariant = "reconcile") they cannot occur; if one is observed there it is a VIOLATION, whatever known_findings.json lists.
+ORDERING_ONLY = {
+    "dkg-completion:crash-after-SaveFinished-before-SaveGroup:db-ahead-of-key-files:started",
+    "dkg-completion:crash-after-SaveFinished-before-SaveGroup:db-ahead-of-key-files:refused",
+    "dkg-completion:crash-after-SaveGroup-before-SaveShare:group-ahead-of-share:started",
+    "dkg-completion:crash-after-SaveGroup-before-SaveShare:group-ahead-of-share:refused",
+    "dkg-eviction:crash-after-SaveFinished-before-Reset:db-ahead-of-key-files:started",
+    "dkg-eviction:crash-during-Reset:group-ahead-of-share:refused",
+}
+ORDERING_SYMPTOMS = ("db-ahead-of-key-files", "group-ahead-of-share", "share-ahead-of-group", "key-files-of-an-epoch-without-this-node")
 TORN_SYMPTOMS = ("group-unreadable", "group-decoder-panic", "truncated-group-accepted", "share-unreadable", "share-decoder-panic",
                  "truncated-share-accepted")
 
@@ -95,8 +121,10 @@ def order_from_gen():
         calls = re.findall(r'"([^"]*)"', m.group(1))
         a, b = calls.index("store.SaveFinished"), calls.index("completedDKGs.send")
         vm = re.search(r'def keySaveVariant : String := "(\w+)"', txt)
-        global SAVE_VARIANT
+        global SAVE_VARIANT, STARTUP_VARIANT
         SAVE_VARIANT = vm.group(1) if vm else None
+        sm = re.search(r'def startupVariant : String := "(\w+)"', txt)
+        STARTUP_VARIANT = sm.group(1) if sm else None
         return ("SaveFinished,send" if a < b else "send,SaveFinished"), "extracted"
     except Exception as e:
         return "SaveFinished,send", f"not extracted ({e})"
@@ -105,6 +133,28 @@ def order_from_gen():
 
 
 SAVE_VARIANT = None  # "inPlace" | "atomicRename" | None (translator refused the source): set by order_from_gen()
+STARTUP_VARIANT = None  # "asIs" | "reconcile" | None: set by order_from_gen()
+
+
+def parse_r2(v, sep_item="+", sep_field="~"):
+    """'trace:a,b+label~fin~g~s~load[~r3:…]+…' -> (trace list, [(label, rec, nested (trace, items) or None)])"""
+    items = v.split(sep_item)
+    trace = []
+    out = []
+    for it in items:
+        if it.startswith("trace:"):
+            trace = re.findall(r"[^,(]+(?:\([^)]*\))?", it[6:])
+            continue
+        fs = it.split(sep_field)
+        if len(fs) < 5:
+            out.append((it, {"fin": "?", "g": "?", "s": "?", "load": "?"}, None))
+            continue
+        rec = {"fin": canon_val(fs[1]), "g": canon_val(fs[2]), "s": canon_val(fs[3]), "load": canon_val(fs[4])}
+        nested = None
+        if len(fs) > 5 and fs[5].startswith("r3:"):
+            nested = parse_r2(sep_field.join(fs[5:])[3:], "&", "^")
+        out.append((fs[0], rec, nested))
+    return trace, out
 
 
 def observed_variant(trace):
@@ -505,8 +555,20 @@ def evaluate(ops, outs, order, res, stats, ctx, scenario_id):
                 if not consistent(rec, tr.member):
                     sig = f"{script}:crash-{window(label, trace, torn)}:{symptom(rec)}"
                     problem(sig, i, f"crash image '{label}' of '{op}': a restart finds {rec_str(rec)} — not one epoch equal to the completed epoch of dkg.db", [label + ";" + rec_str(rec)])
+                # (3) the start-up path wrote key files itself (a reconciling start-up): it was killed at each of its own
+                # steps and restarted — every such restart must find the same: one epoch, the one the database records
+                if "r2" in rec:
+                    stats["startup_wrote"] += 1
+                    check_restarts(rec["r2"], rec, f"{script}:crash-{window(label, trace, torn)}", label, op, i, tr, problem, stats, 2)
                 if not torn:
                     prev_whole = rec
+            stats["completions"] += 1
+            ov2 = "reconcile" if any("r2" in rec for _, rec in cuts) else "asIs"
+            stats["observed_startup"][ov2] = stats["observed_startup"].get(ov2, 0) + 1
+            if STARTUP_VARIANT is not None and ov2 != STARTUP_VARIANT:
+                problem(f"start-up-protocol:observed-{ov2}-source-says-{STARTUP_VARIANT}", i,
+                        f"the real start-up path was seen to {'write' if ov2 == 'reconcile' else 'write no'} key files on the crash images of '{op}' "
+                        f"while the extractor classifies LoadBeaconFromStore as '{STARTUP_VARIANT}'", [hdr])
             if tx != 1:
                 problem(f"{script}:completion-is-not-one-transaction", i, f"SaveFinished took {tx} bbolt commits; the image between them is a crash point", [hdr])
             if cuts:
@@ -515,10 +577,38 @@ def evaluate(ops, outs, order, res, stats, ctx, scenario_id):
     return problems
 
 
+def check_restarts(r2, parent, where, label, op, i, tr, problem, stats, level):
+    rtrace, items = parse_r2(r2) if isinstance(r2, str) else r2
+    stats["startup_traces"][",".join(rtrace)] = stats["startup_traces"].get(",".join(rtrace), 0) + 1
+    for l2, r, nested in items:
+        stats["evaluations"] += 1
+        stats["restart_images"][level] = stats["restart_images"].get(level, 0) + 1
+        torn2 = "@" in l2
+        stats["distinct"].add(("restart", level, where, l2.split("@")[0], torn2, rec_str(r, ("fin", "g", "s", "load"))))
+        w2 = window(l2, rtrace, torn2)
+        if r.get("fin") != parent.get("fin"):
+            problem(f"{where}:restart-killed-{w2}:dkg-db-changed", i,
+                    f"crash image '{label}' of '{op}', restarted, the restart killed at its own step '{l2}', restarted again: dkg.db reads "
+                    f"fin={r.get('fin')}, it was {parent.get('fin')} — start-up must not touch the completed record", [label + " -> " + l2 + ";" + rec_str(r, ("fin", "g", "s", "load"))])
+        elif not consistent(r, tr.member):
+            problem(f"{where}:restart-killed-{w2}:{symptom(r)}", i,
+                    f"crash image '{label}' of '{op}', restarted, the restart killed at its own step '{l2}' (level {level}), restarted again: "
+                    f"that restart finds {rec_str(r, ('fin', 'g', 's', 'load'))} — not one epoch equal to the completed epoch of dkg.db",
+                    [label + " -> " + l2 + ";" + rec_str(r, ("fin", "g", "s", "load"))])
+        if nested is not None:
+            check_restarts(nested, r, where + ":restart-killed-" + w2, label + " -> " + l2, op, i, tr, problem, stats, level + 1)
+
+
 def report(res, sig, replay):
     """known-finding filter, keyed on the variant of key.Save the tree under test has: a window of the in-place variant
     (torn / truncated / unreadable key file) observed on a tree whose Save replaces files atomically is a VIOLATION even
     though known_findings.json still lists it for trees that write in place"""
+    if STARTUP_VARIANT == "reconcile" and (sig in ORDERING_ONLY or
+                                           (sig.startswith("dkg-") and any(t in sig.split(":") for t in ORDERING_SYMPTOMS))):
+        res.add_violation(dict(replay, signature=sig, note="LoadBeaconFromStore is the reconciling variant on this tree (Gen.startupVariant): "
+                               "whatever the crash point, start-up must leave group file and share of the epoch dkg.db records as completed "
+                               "— c13_files_one_epoch_fixed; this image refutes it"))
+        return True
     if SAVE_VARIANT == "atomicRename" and (sig in INPLACE_ONLY or any(t in sig.split(":") for t in TORN_SYMPTOMS)):
         res.add_violation(dict(replay, signature=sig, note="key.Save is the atomicRename variant on this tree (Gen.keySaveVariant): a crash "
                                "must leave every key file complete (old or new) — c13_no_torn_file; this image refutes it"))
@@ -532,6 +622,33 @@ def minimise(ops):
     ops = ops[start:]
     keep = [ops[0]] + [o for o in ops[1:-1] if o.startswith("dkg") or o.startswith("beacon") or o.startswith("stray")] + ([ops[-1]] if len(ops) > 1 else [])
     return keep
+
+
+def canon_r2(rec, epoch, is_impl):
+    """second-level images of one record in a form comparable between implementation and model: (pre, trace, whole items,
+    torn items keyed by class). The third level (every-offset mode only) is not part of the comparison."""
+    if "r2" not in rec:
+        return (rec.get("pre"), None, [], {})
+    trace, items = parse_r2(rec["r2"])
+    whole, torn = [], {}
+    for l, r, _ in items:
+        val = rec_str(r, ("fin", "g", "s", "load"))
+        if "@" not in l:
+            whole.append((l, val))
+        elif is_impl:
+            cl = torn_class(l, r, epoch)
+            torn.setdefault(l.split("@")[0] + "@" + ("bad" if cl == "tmp" else cl), set()).add(val)
+        else:
+            torn.setdefault(l, set()).add(val)
+    return (rec.get("pre"), ",".join(trace), whole, torn)
+
+
+def r2_agree(a, b):
+    """implementation record a vs model record b (outputs of canon_r2): same pre-image, same steps, same whole images, and
+    every torn image the implementation produced is one the model lists for its class"""
+    if a[:3] != b[:3]:
+        return False
+    return all(k in b[3] and v <= b[3][k] for k, v in a[3].items())
 
 
 def model_compare(ops, impl, model, member_of):
@@ -548,8 +665,11 @@ def model_compare(ops, impl, model, member_of):
             ca, cb = canon_val(a), b
         elif f[0] == "load":
             fs = a.split(";")
-            ca = "rest;" + rec_str(parse_rec(fs[1:]), ("fin", "cur", "g", "s", "load", "chain"))
-            cb = b
+            ra, rb = parse_rec(fs[1:]), parse_rec(b.split(";")[1:])
+            ca = "rest;" + rec_str(ra, ("fin", "cur", "g", "s", "load", "chain"))
+            cb = "rest;" + rec_str(rb, ("fin", "cur", "g", "s", "load", "chain"))
+            if ca == cb and not r2_agree(canon_r2(ra, last_epoch, True), canon_r2(rb, last_epoch, False)):
+                ca, cb = a[:1500], b[:1500]
         elif f[0] == "beacon":
             ca, cb = a, b
         else:
@@ -559,6 +679,11 @@ def model_compare(ops, impl, model, member_of):
             whole_a = [(l, rec_str(r)) for l, r in cuts_a if "@" not in l]
             whole_b = [(l, rec_str(r)) for l, r in cuts_b if "@" not in l]
             ca, cb = (hdr_a, whole_a), (hdr_b, whole_b)
+            if ca == cb:
+                for (l, ra), (_, rb) in zip([c for c in cuts_a if "@" not in c[0]], [c for c in cuts_b if "@" not in c[0]]):
+                    xa, xb = canon_r2(ra, last_epoch, True), canon_r2(rb, last_epoch, False)
+                    if not r2_agree(xa, xb):
+                        return agree, i, [l + ";restart-level:" + str(xa)[:1200]], [l + ";restart-level:" + str(xb)[:1200]]
             if ca == cb:
                 for l, r in cuts_a:
                     if "@" in l:
@@ -584,7 +709,7 @@ def run_scenarios(scens, mode, ctx, workers=8):
             raise core.Broken("harness:crash", f"exit {rc}, {len(out)}/{len(ops)} answers: {err[-800:]}")
         mo = None
         if ctx["model_ok"]:
-            rc2, mo, err2 = core.run_lines(d, ["crash"], ops, timeout=300)
+            rc2, mo, err2 = core.run_lines(d, ["crash", mode], ops, timeout=300)
             if rc2 != 0 or len(mo) != len(ops):
                 raise core.Broken("model:crash", f"exit {rc2}: {err2[-800:]}")
         return out, mo
@@ -609,7 +734,8 @@ def replay_file(ctx, res, path):
     ops = rep["ops"]
     mode = (rep.get("harness_args") or ["crash", "quick"])[1]
     (impl, model), = run_scenarios([ops], mode, ctx, workers=1)
-    stats = {"evaluations": 0, "ops": {}, "cuts": {}, "torn": {}, "loads": {}, "traces": {}, "restarts": 0, "distinct": set(), "observed_variants": {}}
+    stats = {"evaluations": 0, "ops": {}, "cuts": {}, "torn": {}, "loads": {}, "traces": {}, "restarts": 0, "distinct": set(), "observed_variants": {},
+             "startup_wrote": 0, "startup_traces": {}, "restart_images": {}, "completions": 0, "observed_startup": {}}
     seen = set()
     for sig, replay in evaluate(ops, impl, None, res, stats, ctx, "replay:" + os.path.basename(path)):
         if sig not in seen:
@@ -648,7 +774,8 @@ def explore_tier(ctx, res, tier):
         results = run_scenarios(scens[:ncorpus], "all", ctx, workers=12) + run_scenarios(scens[ncorpus:], "quick", ctx, workers=12)
     else:
         results = run_scenarios(scens, "quick", ctx, workers=12)
-    stats = {"evaluations": 0, "ops": {}, "cuts": {}, "torn": {}, "loads": {}, "traces": {}, "restarts": 0, "distinct": set(), "observed_variants": {}}
+    stats = {"evaluations": 0, "ops": {}, "cuts": {}, "torn": {}, "loads": {}, "traces": {}, "restarts": 0, "distinct": set(), "observed_variants": {},
+             "startup_wrote": 0, "startup_traces": {}, "restart_images": {}, "completions": 0, "observed_startup": {}}
     validated = 0
     reported = set()
     diverged = False
@@ -679,12 +806,18 @@ def explore_tier(ctx, res, tier):
                        "for every persistence step observed (inotify events of the groups folder, bbolt commit counter) the directory image before, after and — for the file "
                        "being written, be it the key file itself (written in place) or the temporary sibling that is renamed onto it afterwards (the protocol is "
                        "observed, not assumed) — with that file cut at every line boundary, mid-line, 1, ½, len−1 (quick) or every byte offset (thorough, corpus scenarios) is "
-                       "materialised and the real LoadBeaconFromStore + raw loaders run on it. evaluations = crash images recovered; "
+                       "materialised and the real LoadBeaconFromStore + raw loaders run on it (database records read before, key files after that start-up "
+                       "path has run); when the start-up path itself writes key files (a reconciling start-up) its steps are observed the same way and "
+                       "it is killed at each of them — temporary file cut at 1, ½, len−1 — and restarted (level 2; level 3 in the every-offset mode): "
+                       "every such restart must find the same one epoch. evaluations = crash images recovered; "
                        "non-trivial = distinct (DKG kind, membership, previous completed epoch, step, torn?, recovered record)")
     res.cov["distribution"] = {"ops_by_kind": stats["ops"], "images_by_step": stats["cuts"], "torn_prefix_classes": stats["torn"],
                                "startup_outcomes": stats["loads"], "observed_step_traces": stats["traces"], "restarts": stats["restarts"],
                                "handover_order_from_source": order, "handover_order_source": order_src, "scenarios": len(scens),
-                               "key_save_variant_from_source": SAVE_VARIANT, "key_save_protocol_observed": stats["observed_variants"]}
+                               "key_save_variant_from_source": SAVE_VARIANT, "key_save_protocol_observed": stats["observed_variants"],
+                               "startup_variant_from_source": STARTUP_VARIANT, "startup_protocol_observed": stats["observed_startup"],
+                               "images_on_which_startup_wrote_key_files": stats["startup_wrote"], "startup_step_traces": stats["startup_traces"],
+                               "restart_killed_images_by_level": {str(k): v for k, v in stats["restart_images"].items()}}
     res.cov["samples"] = []
     for name, ops, (impl, model) in list(zip(names, scens, results))[:3]:
         for op, out in zip(ops, impl):
